@@ -146,7 +146,7 @@ def verify_case(con: C.Contract, case: C.Case, timeout_ms=10000) -> CaseReport:
                 ctx.prove(rep.oid("post.raises"), False, real="returned " + repr(real[1])[:120], spec=str(spec[1]))
         else:
             if real[0] == "raise":
-                mr = getattr(case, "may_reject", None)
+                mr = getattr(sx, "path_may_reject", None) or getattr(case, "may_reject", None)
                 if mr is not None and isinstance(real[1], type) and issubclass(real[1], mr):
                     # the contract allows a compile-time rejection here
                     ctx.rejected_paths = getattr(ctx, "rejected_paths", 0) + 1
@@ -299,7 +299,7 @@ def run_native_once(con, case, asg, ns):
         ok = rv[0] == "raise" and issubclass(rv[1], sv[1])
     else:
         if rv[0] == "raise":
-            mr = getattr(case, "may_reject", None)
+            mr = getattr(sx, "path_may_reject", None) or getattr(case, "may_reject", None)
             ok = mr is not None and issubclass(rv[1], mr)
         else:
             want = sv[1]
